@@ -126,6 +126,22 @@ func VerifE01Check() {
 		ContextualTuples:     ctxTuples,
 	})
 	vt.Assert(rerr == nil, "NewResolveCheckRequest failed")
+	if vt.ParamInt("prior", 0) == 1 {
+		// history: an arbitrary OTHER request was answered first on the same typesystem and checker (their
+		// memo tables, planner state and caches are warm); it must not influence the answer below
+		pi := vt.Choose("prior", len(reqs))
+		pq := reqs[pi]
+		vt.Event("prior check " + pq.obj + "#" + pq.rel + "@" + pq.user)
+		preq, _ := NewResolveCheckRequest(ResolveCheckRequestParams{
+			StoreID:              "01HVMMBCMGZNT3SED4Z17ECXCB",
+			AuthorizationModelID: m.GetId(),
+			TupleKey:             tuple.NewTupleKey(pq.obj, pq.rel, pq.user),
+			Context:              reqCtx,
+			ContextualTuples:     ctxTuples,
+		})
+		_, _ = checker.ResolveCheck(ctx, preq)
+		vp.nextRound()
+	}
 	if cm := vt.ParamInt("cancel", 0); cm > 0 {
 		// C20: the request context is cancelled before (1) or while (2) the engine runs. The call must come
 		// back, a decision it still returns must be right, and no engine goroutine may be left behind (the
